@@ -1,10 +1,36 @@
-"""C09 - repeated formatting converges (placeholder while the shared driver suite is validated)."""
+"""C09 - repeated formatting converges and never oscillates.
+Proof: orchestration facts (Props/C09.lean): loop exit reasons, stable texts stay, the cycle cut returns a member of the
+cycle, fix's history asymmetry.  Confluence / termination of ~95 heuristic rules is not a theorem: the iteration sweep
+applies format_code seven times on the corpus."""
 import common
 import pipeline
+import sweep
 
-TRUSTED = []
+TRUSTED = ["C09: convergence of the rule set itself is examined by the iteration sweep only"]
 ASSUMPTIONS = []
 
 
 def suites(ctx):
-    return [pipeline.driver_suite(ctx)]
+    common.import_pyrefact()
+    return [pipeline.driver_suite(ctx), sweep.converge_suite(ctx, quick_n=70)]
+
+
+def match_known(d, known):
+    return sweep.match_known_sha(d, known)
+
+
+def search(ctx, breaks):
+    common.import_pyrefact()
+    return sweep.converge_suite(ctx, quick_n=250).disagreements[:5]
+
+
+def replay(ctx, inp):
+    import oracles
+
+    common.import_pyrefact()
+    res = oracles.task_iterate((inp["src"], dict(inp.get("opts", {})), 7))
+    if res[0] != "ok":
+        return False
+    t = res[1]
+    print([len(x) for x in t])
+    return t[5] != t[6] or t[6] != t[7]
